@@ -42,6 +42,8 @@ def enc(v, t):
         return 'tt'
     if t == 'arr':
         return '(v_id (%d, %d, %d)%%Z)' % tuple(v)
+    if t == 'bmask':
+        return '(mask_of_list [%s])' % '; '.join('(%d, %d, %d)%%Z' % tuple(i) for i in v[1])
     if t == 'hdr':
         r, c, sl, ic = [Fr(x) for x in v[:4]]
         rest = v[4] if len(v) > 4 else 7
@@ -93,6 +95,12 @@ def to_py(v, t):
         import numpy as np
         n = int(v[0] * v[1] * v[2])
         return (np.arange(n, dtype=np.int64) + 1).reshape(tuple(v))
+    if t == 'bmask':
+        import numpy as np
+        m = np.zeros(tuple(v[0]), bool)
+        for i in v[1]:
+            m[tuple(i)] = True
+        return m
     if t == 'hdr':
         def num(x):
             return int(x) if (isinstance(x, int) or (len(v) > 5 and v[5] == 'int' and Fr(x).denominator == 1)) else float(x)
